@@ -49,7 +49,7 @@ void ob_c03_moveaxis_ct(const arr_fs<float,N,R>& a, const std::array<size_t,R>& 
     // numpy.moveaxis: order = [n for n in range(R) if n != s]; order.insert(d, s); result = transpose(order)
     constexpr auto order = [&](){ std::array<size_t,R> o{}; size_t k=0; for (size_t n=0;n<R;n++){ if (k==d) o[k++]=s; if (n!=s) { if (k==d) o[k++]=s; o[k++]=n; } } if (k<R) o[k]=s; return o; }();
     auto mv = view::moveaxis(a, meta::ct_v<SRC>, meta::ct_v<DST>);
-    if constexpr (meta::is_maybe_v<decltype(mv)>) { OBLIGE("C03.moveaxis_ct.valid", static_cast<bool>(mv), R, SRC+10, DST+10); OBLIGE("C15.moveaxis_ct.value_when_in_range", static_cast<bool>(mv), R, SRC+10, DST+10); }
+    if constexpr (meta::is_maybe_v<decltype(mv)>) { OBLIGE("C03.moveaxis_ct.valid|C15.moveaxis_ct.value_when_in_range", static_cast<bool>(mv), R, SRC+10, DST+10); }
     if (nm::has_value(mv)) {
         const auto& v = nm::unwrap(mv);
         std::array<size_t,R> eshape{}, esrc{};
